@@ -44,6 +44,10 @@ type spec struct {
 	// BigSector: the writer opens the file with psow=0, which makes the
 	// journal's sector size 4096 (larger than small pages)
 	BigSector bool `json:",omitempty"`
+	// Sync: the writer's PRAGMA synchronous ("" = FULL). With OFF the journal
+	// is never synced: its header is valid from the first write on and its
+	// record count field stays 0xFFFFFFFF ("as many as the file holds").
+	Sync string `json:",omitempty"`
 }
 
 var stmtPool = []string{
@@ -79,6 +83,7 @@ func TestC09Crash(t *testing.T) {
 				JournalMode: rapid.SampledFrom([]string{"DELETE", "TRUNCATE", "PERSIST"}).Draw(t, "jm"),
 				Rows:        rapid.SampledFrom([]int{30, 80, 150}).Draw(t, "rows"),
 				BigSector:   rapid.IntRange(0, 2).Draw(t, "bigsector") == 0,
+				Sync:        rapid.SampledFrom([]string{"", "", "NORMAL", "OFF", "OFF", "EXTRA"}).Draw(t, "sync"),
 			}
 			n := rapid.IntRange(1, 4).Draw(t, "nstmts")
 			for i := 0; i < n; i++ {
@@ -122,14 +127,18 @@ func runWriter(r *vt.Run, t vt.TB, dir, db string, s spec, k int, torn bool, log
 		if s.BigSector {
 			target = "file:" + db + "?psow=0"
 		}
-		cmd = exec.Command(locks.ToolPath("crashwriter"), target, s.JournalMode, "3", stmtFile)
+		sync := s.Sync
+		if sync == "" {
+			sync = "FULL"
+		}
+		cmd = exec.Command(locks.ToolPath("crashwriter"), target, s.JournalMode, "3", stmtFile, sync)
 	} else {
 		specFile := filepath.Join(dir, "writer.json")
 		target := db
 		if s.BigSector {
 			target = "file:" + db + "?psow=0"
 		}
-		b, _ := json.Marshal(map[string]interface{}{"path": target, "journal_mode": s.JournalMode, "cache_size": 3, "stmts": s.Stmts})
+		b, _ := json.Marshal(map[string]interface{}{"path": target, "journal_mode": s.JournalMode, "cache_size": 3, "stmts": s.Stmts, "synchronous": s.Sync})
 		os.WriteFile(specFile, b, 0o644)
 		py := os.Getenv("VERIF_PYTHON")
 		if py == "" {
@@ -336,6 +345,7 @@ func run(r *vt.Run, t vt.TB, s spec) {
 			r.CaseKey(vt.Hash(cp), nontrivial, "crash:"+s.JournalMode+":"+opName+map[bool]string{true: ":torn", false: ""}[torn], func() interface{} { return cp })
 			r.Count(fmt.Sprintf("sector:%v", map[bool]int{true: 4096, false: 512}[s.BigSector]), 1)
 			r.Count("journal-left:"+jstate, 1)
+			r.Count("synchronous:"+map[bool]string{true: "FULL", false: s.Sync}[s.Sync == ""], 1)
 
 			// two copies: one for sqlittle, one for SQLite's own recovery
 			a, b := filepath.Join(dir, "a.sqlite"), filepath.Join(dir, "b.sqlite")
